@@ -262,6 +262,12 @@ func typeKey(t types.Type) string {
 
 // sortOf maps a Go type to the sort of its scalar representation ("" if compound).
 func (e *Engine) sortOf(t types.Type) Sort {
+	if _, ok := t.(*types.TypeParam); ok {
+		if _, isChan := coreType(t).(*types.Chan); isChan {
+			return SChan
+		}
+		return SAny
+	}
 	switch u := t.Underlying().(type) {
 	case *types.Basic:
 		switch {
